@@ -27,6 +27,9 @@ Proof. apply zeroed_intro. intros obj. reflexivity. Qed.
 Theorem key_free_sw_zero : released_zeroed x_key_free_sw.
 Proof. apply zeroed_intro. intros obj. reflexivity. Qed.
 
+Theorem key_free_sw_ni_zero : released_zeroed x_key_free_sw_ni.
+Proof. apply zeroed_intro. intros obj. reflexivity. Qed.
+
 Theorem aesctr_free_zero : released_zeroed x_aesctr_free.
 Proof. apply zeroed_intro. intros obj. reflexivity. Qed.
 
